@@ -51,6 +51,8 @@ CountersMatch(e) ==
   /\ ("args" \in DOMAIN e => cnt' = e.args /\ e.max_args = in'.n)
   /\ ("lines" \in DOMAIN e => line' = e.lines /\ e.max_lines = in'.L)
   /\ ("chars" \in DOMAIN e => sizeS' = e.chars /\ e.max_chars = in'.s)
+  \* (the system limiter is always installed: an event without its counter is not one the machine can follow)
+  /\ "sys" \in DOMAIN e /\ "max_sys" \in DOMAIN e
   /\ sizeSys' = e.sys /\ e.max_sys = in'.sys
   /\ (("args" \in DOMAIN e) <=> in'.n > 0) /\ (("lines" \in DOMAIN e) <=> in'.L > 0) /\ (("chars" \in DOMAIN e) <=> in'.s > 0)
 
@@ -102,7 +104,7 @@ Repl == "tmpl" \in DOMAIN in
 CurLen == in.args[cur[1]].len
 SubstMatches(e, len) ==
   LET m == SubstMeasure(len) IN
-  /\ e.ev = "Subst" /\ e.fits = m.ok /\ e.sys = m.sys /\ e.max_sys = in.sys
+  /\ e.ev = "Subst" /\ "sys" \in DOMAIN e /\ "max_sys" \in DOMAIN e /\ e.fits = m.ok /\ e.sys = m.sys /\ e.max_sys = in.sys
   /\ (in.s > 0 => "chars" \in DOMAIN e /\ e.chars = m.s /\ e.max_chars = in.s)
   /\ e.args = 0
 
